@@ -443,6 +443,11 @@ class Circuit:
                     # do not leave the other tasks running when cancelled
                     for _blk, other, _timeout in btt_list:
                         other.cancel()
+                    # a cancelled task may need several iterations of the event loop
+                    # to terminate; wait for them, bounded by the longest timeout
+                    await asyncio.wait(
+                        [other for _blk, other, _timeout in btt_list],
+                        timeout=btt_list[0][2] - get_time() + start_time)
                     raise
                 except asyncio.TimeoutError:
                     errcnt += 1
